@@ -26,7 +26,7 @@ func init() {
 		Assumptions: []string{"AEAD implementations are inverse pairs (Decrypt(Encrypt(p,k),k)=p)", "Metastore.Load returns what Store stored (C13)"},
 		Tech:        "static analysis: value provenance over SSA (writer/reader agreement), closure-binding call-graph reachability, no-write-through may-flow on caller buffers",
 		NeedU1:      true,
-		Rules:       []func(*Ctx){ruleC01ProvenanceEncrypt, ruleC01ProvenanceDecrypt, ruleC01NoValidityGateOnRead, ruleC01NoExtraGateOnRead, ruleC01OldKeysAddressable, ruleC01CallerBuffersImmutable, ruleC08RefcountProtocol, ruleC08EveryHandoutCounted, ruleC16TeardownWaits, ruleC16GetAtomic, lostUpdateRule("C16", "github.com/godaddy/asherah/go/appencryption"), ruleC17EntryPerSuccess, ruleC17WorkerContextLives, ruleC18GCMLayout, ruleC07LengthGuard, ruleC02FreshKeyOnlyIfStored, ruleC02SuccessIsStoreBool, ruleC13InsertOnly, ruleC13StoreResult, ruleC13KeyFidelity, ruleC10WipedBuffersAreOwned, ruleC01DependenciesNotClosed, ruleC01LatestLookupUsesMarker, ruleC10WipeNotEarly, ruleC13FieldFidelity},
+		Rules:       []func(*Ctx){ruleC01ProvenanceEncrypt, ruleC01ProvenanceDecrypt, ruleC01NoValidityGateOnRead, ruleC01NoExtraGateOnRead, ruleC01OldKeysAddressable, ruleC01CallerBuffersImmutable, ruleC08RefcountProtocol, ruleC08EveryHandoutCounted, ruleC16TeardownWaits, ruleC16GetAtomic, lostUpdateRule("C16", "github.com/godaddy/asherah/go/appencryption"), ruleC17EntryPerSuccess, ruleC17WorkerContextLives, ruleC18GCMLayout, ruleC07LengthGuard, ruleC02FreshKeyOnlyIfStored, ruleC02SuccessIsStoreBool, ruleC13InsertOnly, ruleC13StoreResult, ruleC13KeyFidelity, ruleC10WipedBuffersAreOwned, ruleC01DependenciesNotClosed, ruleC01LatestLookupUsesMarker, ruleC10WipeNotEarly, ruleC13FieldFidelity, ruleC01LatestFetchedUnderOwnID},
 	})
 }
 
@@ -222,6 +222,7 @@ func ruleC01ProvenanceDecrypt(c *Ctx) {
 				})
 			}
 			var unwrap, dec *ssa.Call
+			direct := ""
 			allInstrs(af, func(i ssa.Instruction) {
 				if !invokeIs(i, pkgApp, "AEAD", "Decrypt") {
 					return
@@ -231,9 +232,17 @@ func ruleC01ProvenanceDecrypt(c *Ctx) {
 				case "key":
 					unwrap = cv
 				case "payload":
+					// a second way to open the payload: directly with the IK bytes (no data row key in between)
+					if isParamNamed(cv.Call.Args[1], af, ikIdx) {
+						direct = u.ipos(i)
+						return
+					}
 					dec = cv
 				}
 			})
+			if direct != "" {
+				c.bad(shortName(dr)+"/payload-only-under-the-DRK", direct, "the record's Data is also opened directly with the intermediate key's bytes: everything the IK has sealed — every wrapped data row key of the partition — then passes as a payload (a forged record with an empty Key and a genuine record's wrapped key as Data decrypts to that record's plaintext DRK)")
+			}
 			if unwrap == nil || dec == nil {
 				continue
 			}
@@ -444,6 +453,12 @@ func ruleC01OldKeysAddressable(c *Ctx) {
 			if cc := callOf(i); cc != nil {
 				if b, ok := cc.Value.(*ssa.Builtin); ok && (b.Name() == "delete" || b.Name() == "clear") {
 					bad = u.ipos(i) + " " + b.Name() + " on a keyCache map"
+				}
+			}
+			// the latest index is replaced wholesale (a "start over" when it grows): every id's latest mapping is forgotten
+			if st, ok := i.(*ssa.Store); ok {
+				if base, fld, isF := fieldAccess(st.Addr); isF && fld == "latest" && namedTypeName(derefType(base.Type())) == "keyCache" {
+					bad = u.ipos(i) + " the latest map is replaced after construction"
 				}
 			}
 		})
